@@ -55,9 +55,16 @@ where
 {
     fn decode(&self) -> Result<Vec<u8>, ()> {
         let input = self.as_ref();
+        let bytes = input.as_bytes();
+
+        if bytes.len() % 4 != 0 {
+            return Err(());
+        }
+
         let mut result: Vec<u8> = Vec::with_capacity(input.len() * 3 / 4);
 
-        for group in input.as_bytes().chunks(4) {
+        for (group_index, group) in bytes.chunks(4).enumerate() {
+            let is_last_group = (group_index + 1) * 4 == bytes.len();
             let mut decoded: u32 = 0;
             let mut broken: usize = 4;
 
@@ -69,6 +76,11 @@ where
                     b'+' => decoded |= 62_u32 << (6 * (3 - i)),
                     b'/' => decoded |= 63_u32 << (6 * (3 - i)),
                     b'=' => {
+                        // Padding may only be the last one or two symbols of the last group.
+                        if !is_last_group || i < 2 || group[i..].iter().any(|b| *b != b'=') {
+                            return Err(());
+                        }
+
                         broken = i;
                         break;
                     }
